@@ -27,7 +27,7 @@ FAMILY = {
 
 def checks_for(seed: str, patch: str):
     own = seed.split("-")[0]
-    out = [own]
+    out = [] if seed.startswith("_") else [own]
     txt = open(patch).read()
     files = re.findall(r"^\+\+\+ b/(.*)$", txt, re.M)
     for f in files:
@@ -73,7 +73,11 @@ def main():
         for seed, res in ex.map(run_seed, seeds):
             matrix[seed] = res
             own = seed.split("-")[0]
-            print(seed, {k: (v["exit"] if isinstance(v, dict) else v) for k, v in res.items()}, "OWN-CAUGHT" if isinstance(res.get(own), dict) and res[own]["exit"] == 1 else "own-missed", flush=True)
+            if seed.startswith("_"):
+                verdict = "NEGATIVE-CONTROL-OK" if all(isinstance(v, dict) and v["exit"] == 0 for v in res.values()) else "NEGATIVE-CONTROL-ALARM"
+            else:
+                verdict = "OWN-CAUGHT" if isinstance(res.get(own), dict) and res[own]["exit"] == 1 else "own-missed"
+            print(seed, {k: (v["exit"] if isinstance(v, dict) else v) for k, v in res.items()}, verdict, flush=True)
             json.dump(matrix, open(out_path, "w"), indent=1, sort_keys=True)
     json.dump({"repo_head": subprocess.run(["git", "-C", "/repo", "rev-parse", "--short", "HEAD"], capture_output=True, text=True).stdout.strip(), **matrix}, open(out_path, "w"), indent=1, sort_keys=True)
 
